@@ -1,10 +1,15 @@
 #!/bin/sh
-# tools/triage_batch.sh <round suffix, e.g. -r5> Cxx [Cyy ...] — triage.sh for the two (or more) changes of each property in /tmp/seedout<suffix>
+# tools/triage_batch.sh <round suffix, e.g. -r5> Cxx [Cyy ...] — triage.sh for the changes of each property in /tmp/seedout<suffix>;
+# serialised over the shared builder worktrees by a lock; one log per property in /root/sweep/triage<suffix>-Cxx.log
 SUF=$1; shift
+mkdir -p /root/sweep
 for P in "$@"; do
-  for D in /tmp/seedout$SUF/$P-[0-9]*; do
-    [ -f $D/patch.diff ] || continue
-    echo "=== $(basename $D)"
-    sh "$(dirname $0)/triage.sh" $D $P 2>&1 | tail -12
-  done
+  (
+    flock 9
+    for D in /tmp/seedout$SUF/$P-[0-9]*; do
+      [ -f $D/patch.diff ] || continue
+      echo "=== $(basename $D)"
+      sh "$(dirname $0)/triage.sh" $D $P 2>&1 | tail -12
+    done
+  ) 9> /root/work/triage.lock > /root/sweep/triage$SUF-$P.log 2>&1
 done
